@@ -451,10 +451,13 @@ def rt_setup(ctx):
 
     calls = {"RegisteredType": new_handler, "get_registered_type": lambda c, a, k: handlers.get(a[0]), "globals": lambda c, a, k: ({"_fail_already_registered": module_flag} if module_flag is not None else {})}
     env = {"type_class": T, "serializer": ser, "deserializer": de, "uniqueness_key": key, "deserializer_exceptions": (), "type_check": Rec("type_check")}
+    exc_given = ctx.choose(2, "deserializer_exceptions-given") == 1
+    if not exc_given:
+        del env["deserializer_exceptions"]  # the default written in the signature applies (bound by the engine from the real source)
     if fail_flag != "omitted":
         env["fail_already_registered"] = fail_flag == "True"
     return Setup(env=env, calls=calls, consts={"registered_type_handlers": handlers, "registered_types": types},
-                 data=dict(state=state, fail=(fail_flag != "False") if module_flag is None else module_flag, key=key, T=T, handlers=handlers, types=types, made=made, old=handlers.get(T), ser=ser, de=de))
+                 data=dict(exc_given=exc_given, state=state, fail=(fail_flag != "False") if module_flag is None else module_flag, key=key, T=T, handlers=handlers, types=types, made=made, old=handlers.get(T), ser=ser, de=de))
 
 
 def rt_post(ctx, st, result):
@@ -469,6 +472,11 @@ def rt_post(ctx, st, result):
         ctx.oblige("post", "afterwards-the-type-is-handled-by-exactly-the-given-serializer-and-deserializer" + tag,
                    h is not None and h is d["made"][0] and h.attrs["serializer"] is d["ser"] and h.attrs["base_deserializer"] is d["de"])
     ctx.oblige("post", "a-uniqueness-key-is-recorded-iff-given" + tag, d["types"] == ({d["key"]: d["T"]} if d["key"] else {}))
+    if d["made"] and not d["exc_given"]:
+        # a deserializer written for text fails on a non-text value (a number from a config) with AttributeError (value.strip()) or TypeError as often as with
+        # ValueError: all three are announced when the caller names none, so that RegisteredType.deserializer reports them as a value the type does not accept
+        names = {getattr(x, "name", getattr(x, "__name__", None)) for x in (d["made"][0].attrs.get("deserializer_exceptions") or ())}
+        ctx.oblige("post", "without-named-exceptions-the-deserializer's-ValueError,TypeError-and-AttributeError-are-announced(a text-only deserializer given a number)" + tag, {"ValueError", "TypeError", "AttributeError"} <= names)
 
 
 def rt_raises(ctx, st, exc):
